@@ -7,7 +7,7 @@ RULE = ("random polylines (degree 1, 1..5 segments, 2-D and 3-D, float data, uni
         "curve, points equidistant from two segments, points beyond the ends; random curves of degree 2..3 and rational arcs (soundness conditions "
         "only); every call under a wall-clock cap.  Non-trivial: at least two segments or degree >= 2; distinct = distinct (curve, point)."
         " Also: far points whose two nearest candidates differ by about 3e-6 of the distance, single-span curves that clean() could reduce; one Curve object projected on, given other "
-        "weights through the setter, projected on again; integer knot vectors given as python ints with spans 2..4.")
+        "weights through the setter, projected on again; integer knot vectors given as python ints with spans 2..4; real-valued curves (scalar control points) of degree 3..4.")
 EXPLANATION = ("L3: the exact nearest-point oracle for polylines (`geom.nearest`, minimum of the per-segment quadratics over Q, proved optimal) gives "
                "the minimal distance; the returned tuple is checked for non-emptiness, order, range, equal distances (1e-6), minimality, "
                "stationarity of interior non-knot parameters (exact derivative via `rf.evalderiv`), termination and unchanged operands.")
@@ -28,6 +28,12 @@ def run_case(ctx, case):
     Wf = None if W is None else [float(w) for w in W]
     curve = Curve(Uf, Pf, Wf)
     ptf = [float(x) for x in pt]
+    scalarpts = bool(c.get("scalarpts"))
+    if scalarpts:
+        # a real-valued curve: python floats as control points, a number as the point to project
+        curve = Curve(Uf, [float(q[0]) for q in P], Wf)
+    arg = ptf[0] if scalarpts else ptf
+    vec = (lambda v: [float(v)]) if scalarpts else (lambda v: v)
     if c.get("pre"):
         # the same Curve object was projected on while it had other weights / control points, then brought to its present state through
         # the public setters: the answer depends on the present state only
@@ -36,7 +42,7 @@ def run_case(ctx, case):
         Wq = None if pre["W"] is None else [float(w) for w in pre["W"]]
         curve = Curve(Uf, Pq, Wq)
         try:
-            impl(lambda: with_timeout(lambda: Projection.point_on_curve(ptf, curve), 30))
+            impl(lambda: with_timeout(lambda: Projection.point_on_curve(arg, curve), 30))
         except Timeout:
             pass
         if pre.get("setpoints"):
@@ -48,7 +54,7 @@ def run_case(ctx, case):
         rec.count("reused-object", "weights" + ("+points" if pre.get("setpoints") else ""))
     start = curve_state(curve)
     try:
-        r = impl(lambda: with_timeout(lambda: Projection.point_on_curve(ptf, curve), 30))
+        r = impl(lambda: with_timeout(lambda: Projection.point_on_curve(arg, curve), 30))
     except Timeout:
         rec.violation("point_on_curve did not terminate within 30 s", case)
         return
@@ -69,7 +75,7 @@ def run_case(ctx, case):
         return
     Ue, Pe = start[0], start[1]
     pte = [frac(x) for x in ptf]
-    ds = [math.sqrt(sum((float(a) - b) ** 2 for a, b in zip(curve(t), ptf))) for t in ts]
+    ds = [math.sqrt(sum((float(a) - b) ** 2 for a, b in zip(vec(curve(t)), ptf))) for t in ts]
     if max(ds) - min(ds) > 1e-6:
         rec.violation("returned parameters are not at the same distance", case, distances=ds)
     if p == 1 and W is None:
@@ -131,6 +137,15 @@ def run(ctx):
             pt = [F(rng.randint(-20, 20), 4), F(rng.randint(-20, 20), 4)]
             label = "random"
         run_case(ctx, ser(dict(kind="proj", label=label, U=U, P=P, W=None, pt=pt, intknots=True)))
+    for i in range(budget(ctx, 12, 120)):
+        # real-valued curves (scalar control points, degree 3..4, wiggly): a value of the curve is projected onto itself
+        p_ = rng.randint(3, 4)
+        U = [F(0)] * (p_ + 1) + ([F(rng.randint(2, 8), 10)] if i % 2 else []) + [F(1)] * (p_ + 1)
+        n_ = len(U) - p_ - 1
+        P = [(F(rng.randint(-6, 6)),) for _ in range(n_)]
+        t0 = F(rng.randint(1, 19), 20)
+        v = ctx["drv"].call("curve.def", *curve_args(U, P, None), [t0])
+        run_case(ctx, ser(dict(kind="proj", label="oncurve", U=U, P=P, W=None, pt=[frac(v[1][0][0])], scalarpts=True)))
     for i in range(budget(ctx, 14, 150)):
         # one Curve object projected on, then given other weights (or none) through the setter, then projected on again
         if i % 2 == 0:
